@@ -53,6 +53,11 @@ pub trait Engine {
     fn max_shrink_time_ms(&self) -> u32 {
         120_000
     }
+    /// largest tolerated fraction of cases that could not be decided (watchdog expiry, broken
+    /// child); above it the run is reported as inconclusive (exit 2), never as a violation
+    fn tolerated_inconclusive_fraction(&self) -> f64 {
+        0.2
+    }
 }
 
 // ---------------------------------------------------------------------------------------------
@@ -109,6 +114,7 @@ struct Stats {
     excluded: u64,
     excluded_reasons: BTreeMap<String, u64>,
     inconclusive: Vec<String>,
+    inconclusive_count: u64,
     other_property_findings: BTreeMap<String, u64>,
     other_examples: BTreeMap<String, Vec<String>>,
     counters: BTreeMap<String, u64>,
@@ -143,6 +149,7 @@ pub fn run_worker(engine: &dyn Engine, prop: &str, seed: u64, widx: u64, cases: 
                 *st.excluded_reasons.entry(r.clone()).or_insert(0) += 1;
             }
             if let Some(r) = &o.inconclusive {
+                st.inconclusive_count += 1;
                 if st.inconclusive.len() < 20 {
                     st.inconclusive.push(r.clone());
                 }
@@ -207,6 +214,7 @@ pub fn run_worker(engine: &dyn Engine, prop: &str, seed: u64, widx: u64, cases: 
         "excluded": st.excluded,
         "excluded_reasons": st.excluded_reasons,
         "inconclusive": st.inconclusive,
+        "inconclusive_count": st.inconclusive_count,
         "other_property_findings": st.other_property_findings,
         "other_examples": st.other_examples,
         "counters": st.counters,
@@ -219,6 +227,7 @@ pub fn run_worker(engine: &dyn Engine, prop: &str, seed: u64, widx: u64, cases: 
 // ---------------------------------------------------------------------------------------------
 
 pub struct RunSpec {
+    pub tolerated_inconclusive_fraction: f64,
     pub prop: String,
     pub tier: String,
     pub seed: u64,
@@ -240,6 +249,7 @@ pub struct Aggregate {
     pub excluded: u64,
     pub excluded_reasons: BTreeMap<String, u64>,
     pub inconclusive: Vec<String>,
+    pub inconclusive_count: u64,
     pub other_property_findings: BTreeMap<String, u64>,
     pub failures: Vec<Value>,
     pub worker_errors: Vec<String>,
@@ -275,6 +285,7 @@ pub fn run_parent(spec: &RunSpec, extra_args: &[String]) -> Aggregate {
         excluded: 0,
         excluded_reasons: BTreeMap::new(),
         inconclusive: Vec::new(),
+        inconclusive_count: 0,
         other_property_findings: BTreeMap::new(),
         failures: Vec::new(),
         worker_errors: Vec::new(),
@@ -366,6 +377,7 @@ pub fn run_parent(spec: &RunSpec, extra_args: &[String]) -> Aggregate {
                 *agg.excluded_reasons.entry(k.clone()).or_insert(0) += n.as_u64().unwrap_or(0);
             }
         }
+        agg.inconclusive_count += v["inconclusive_count"].as_u64().unwrap_or(0);
         for s in v["inconclusive"].as_array().cloned().unwrap_or_default() {
             if agg.inconclusive.len() < 20 {
                 agg.inconclusive.push(s.as_str().unwrap_or("").to_string());
@@ -452,6 +464,16 @@ pub fn finish(spec: &RunSpec, agg: &Aggregate, regress: &RegressReport, started:
         }
         exit = 2;
     }
+    if exit == 0 && agg.inconclusive_count as f64 > spec.tolerated_inconclusive_fraction * (agg.evaluations.max(1) as f64) {
+        sut::outln(&format!(
+            "INCONCLUSIVE: {} of {} cases could not be decided (tolerated fraction {}), e.g. {}",
+            agg.inconclusive_count,
+            agg.evaluations,
+            spec.tolerated_inconclusive_fraction,
+            agg.inconclusive.iter().take(2).cloned().collect::<Vec<_>>().join(" | ")
+        ));
+        exit = 2;
+    }
     // evidence
     let mut samples = agg.samples.clone();
     if samples.is_empty() {
@@ -467,7 +489,7 @@ pub fn finish(spec: &RunSpec, agg: &Aggregate, regress: &RegressReport, started:
         "excluded_by_known_finding": agg.excluded,
         "excluded_reasons": agg.excluded_reasons,
         "known_finding_hits": agg.known_hits.iter().map(|(k, v)| (k.clone(), json!(v.0))).collect::<BTreeMap<_, _>>(),
-        "inconclusive_cases": agg.inconclusive.len(),
+        "inconclusive_cases": agg.inconclusive_count,
         "inconclusive_examples": agg.inconclusive.iter().take(3).collect::<Vec<_>>(),
         "findings_for_other_properties_seen": agg.other_property_findings,
         "regression_cases_replayed": regress.executed,
@@ -501,7 +523,7 @@ pub fn finish(spec: &RunSpec, agg: &Aggregate, regress: &RegressReport, started:
         agg.evaluations + regress.executed,
         agg.nontrivial.len(),
         agg.excluded,
-        agg.inconclusive.len(),
+        agg.inconclusive_count,
         violation_paths.len(),
         started.elapsed().as_secs_f64(),
         exit
